@@ -176,22 +176,9 @@ def check(model, rep, tier):
   st_main = [s for s in sites if s.fi.node is csf.node and 'state_vars' in s.kwargs]
   glist = core.norm(st_main[0].kwargs['guarded_state_vars']) if st_main and \
       'guarded_state_vars' in st_main[0].kwargs else None
-  loops = [n for n in csf.node.body if isinstance(n, ast.For) and
-           core.norm(n.iter) == bv]
-  ok = len(loops) == 1 and glist is not None
-  rng = None
-  if ok:
-    lp = loops[0]
-    fake = ast.FunctionDef(name='_loop', args=csf.node.args, body=lp.body,
-                           decorator_list=[], lineno=lp.lineno)
-    g = pycfg.CFG(fake)
-    w = {i: 1 for i in range(len(g.nodes)) if any(
-        isinstance(c.func, ast.Attribute) and c.func.attr == 'append' and
-        core.norm(c.func.value) == glist
-        for c in pycfg.calls_at(g, i))}
-    rng = g.count_range(w, skip_labels=())
-    ok = rng == (1, 1) and not any(isinstance(x, (ast.Break, ast.Continue))
-                                   for x in ast.walk(lp))
+  lm = tpl.listmap(csf.node, glist) if glist is not None else None
+  ok = lm is not None and core.norm(lm[1]) == bv and isinstance(lm[0], ast.Name)
+  rng = (1, 1) if ok else None
   rep.check(ok, 'SEQ', '%s:getter-list-one-per-variable' % csf.site,
             'the getter list must receive exactly one entry per state variable, '
             'in order', {'appends_per_iteration': rng}, line=csf.node.lineno)
@@ -235,11 +222,21 @@ def check(model, rep, tier):
   ldu_sites = [s for s in sites if s.fi.node is csf.node and any(
       'ag__.ldu' in t.text for t in s.templates)]
   ok = len(ldu_sites) == 1 and ldu_sites[0].templates[0].text.strip() == \
-      'ag__.ldu(lambda: var_, name)'
+      'ag__.ldu(lambda: var_, name)' and lm is not None
   if ok:
-    lv = core.norm(ldu_sites[0].kwargs['var_'])
-    ok = loops and lv == core.norm(loops[0].target) and core.norm(
-        ldu_sites[0].kwargs['name']) == 'ast.Constant(str(%s))' % lv
+    lv = core.norm(lm[0])
+    elt = lm[2]
+    # element = v when v is simple, the guarded read of v otherwise
+    ok = isinstance(elt, ast.IfExp)
+    if ok:
+      t = core.norm(elt.test)
+      simple, comp = (elt.body, elt.orelse) if t in (
+          '%s.is_simple()' % lv, 'not %s.is_composite()' % lv) else (
+              (elt.orelse, elt.body) if t in ('%s.is_composite()' % lv,
+                                              'not %s.is_simple()' % lv) else (None, None))
+      ok = simple is not None and core.norm(simple) == lv and \
+          comp is ldu_sites[0].call and core.norm(ldu_sites[0].kwargs['var_']) == lv \
+          and core.norm(ldu_sites[0].kwargs['name']) == 'ast.Constant(str(%s))' % lv
   rep.check(ok, 'GETSET', '%s:composites-through-ldu' % csf.site,
             'composite state must be read as ag__.ldu(lambda: <sym>, <name>)',
             line=csf.node.lineno)
@@ -479,10 +476,13 @@ def ldu(load_v, name):
             line=clo.node.lineno)
   psd = model.func(DIRS, 'DirectivesTransformer._process_statement_directive')
   pp = psd.params()
-  n1, b1 = pat.first(psd.node, '_T_ = self.state[_LoopScope].ast_node')
-  ok = b1 is not None and pat.has(
-      psd.node, 'anno.setanno(_T_, anno.Basic.DIRECTIVES, _A_)', b1) and pat.has(
-          psd.node, '_A_[%s] = _map_args(%s, %s)' % (pp[1], pp[0], pp[1]))
+  # (pure aliases such as `target = self.state[_LoopScope].ast_node` are removed by
+  # the normalising pre-pass, sa/inline.py)
+  ok = pat.has(psd.node, 'anno.setanno(self.state[_LoopScope].ast_node, '
+               'anno.Basic.DIRECTIVES, _A_)') and pat.has(
+                   psd.node, '_A_[%s] = _map_args(%s, %s)' % (pp[1], pp[0], pp[1])) and \
+      pat.has(psd.node, '_A_ = anno.getanno(self.state[_LoopScope].ast_node, '
+              'anno.Basic.DIRECTIVES, {})')
   rep.check(ok, 'OPTS', '%s:innermost-loop' % psd.site,
             'a loop directive must be recorded on the innermost enclosing loop '
             'node', line=psd.node.lineno)
